@@ -26,7 +26,7 @@ ASSUMPTIONS = [
     "for a user alphabet the 'representatives' are the distinct images of the 20 amino acids",
     "entries of a user dictionary for keys beyond the 20 amino acids take no part in the reduction nor in the alphabet",
 ]
-REQUIRED = {"all": ["cells_checked", "sizes_rejected", "laws_checked", "user_total_accepted", "user_invalid_rejected",
+REQUIRED = {"all": ["salted_objects", "cells_checked", "sizes_rejected", "laws_checked", "user_total_accepted", "user_invalid_rejected",
                     "user_switch_on_same_object", "size_forms_accepted", "user_total_with_extra_keys", "user_bijections"]}
 SIZES = [2, 3, 4, 5, 6, 8, 10, 11, 12, 15, 18, 20]
 NSEQ = {"quick": 600, "thorough": 4000}
